@@ -692,8 +692,12 @@ class C10:
                 for i in range(nkeys):
                     c.cmd("SET", "e:%s:%d" % (size_tag, i), "x" * 100)
                 # size of the snapshot that a successful save would write now
-                if c.cmd("SAVE") != ("s", b"OK"):
-                    raise InternalError("part E: clean SAVE failed")
+                r0 = c.cmd("SAVE")
+                if r0 != ("s", b"OK"):
+                    # a clean save that does not work after earlier (failed) saves is the property's own failure
+                    self.fail("a clean SAVE (no limit in force) answered %r after earlier saves were cut by the OS" % (r0,),
+                              {"kind": "fsize", "then": "SAVE", "leftover_files": sorted(os.listdir(srv.dir))})
+                    return
                 full = len(open(os.path.join(srv.dir, "dump.rdb"), "rb").read())
                 # put the old dump back as 'the dump before'
                 open(os.path.join(srv.dir, "dump.rdb"), "wb").write(prev)
